@@ -244,3 +244,189 @@ Section StatusWrite.
       intros x Hor. apply (lookup_prev_put _ s' st x Hf Hid'). rewrite Hid'. exact Hor.
   Qed.
 End StatusWrite.
+
+(** * Layer 2: a phase replayed on its own output world
+    For EVERY outcome of [reconcile_objects] (complete, failing probes, refusal, invalid apply): reconciling the
+    same objects again, in any world that agrees with the output world on the phase's keys (the counters may have
+    moved), changes nothing and returns the same outcome. *)
+Section PhaseReplay.
+  Variable c : cfg.
+  Let s := flavor_strat (c_flavor c).
+
+  (** a request that changed nothing: a no-op apply, or an apply the server rejected *)
+  Definition calm_ev (e : ev) : Prop :=
+    match e with EApply _ _ pre (POk o) => pre = Some o | EApply _ _ _ PInvalid => True | _ => False end.
+
+  Lemma noop_calm e : noop_ev e -> calm_ev e.
+  Proof. destruct e as [k rd pre [o| |]| |]; cbn; auto. Qed.
+
+  Lemma api_apply_none_local w w2 k ap :
+    lookup k (w_store w2) = lookup k (w_store w) -> api_apply w k ap = None -> api_apply w2 k ap = None.
+  Proof.
+    unfold api_apply. intros ->. destruct (lookup k (w_store w)) as [cur|].
+    - destruct (negb (refs_valid (o_owners (apply_to ap cur)))); [reflexivity|].
+      destruct (obj_eqb (apply_to ap cur) cur); discriminate.
+    - cbn [fresh_obj o_owners]. destruct (negb (refs_valid (ap_owners ap))); [reflexivity|discriminate].
+  Qed.
+
+  Lemma do_apply_err_local w k rd ap w1 e1 e :
+    do_apply idw w k rd ap = (w1, e1, RErr e) ->
+    w1 = w /\ e = ErrInvalid /\
+    forall w2, lookup k (w_store w2) = lookup k (w_store w) -> do_apply idw w2 k rd ap = (w2, e1, RErr e).
+  Proof.
+    unfold do_apply, idw, api_get. destruct (api_apply w k ap) as [[[w' o] cr]|] eqn:Ea; [discriminate|].
+    intros H. injection H as <- <- <-. split; [reflexivity|]. split; [reflexivity|].
+    intros w2 Hl. rewrite (api_apply_none_local w w2 k ap Hl Ea). now rewrite Hl.
+  Qed.
+
+  (** an erroring object step writes nothing, and errs the same way wherever the object looks the same *)
+  Lemma rec_obj_err_local w ow prev p w1 e1 e :
+    reconcile_object c idw w ow prev p = (w1, e1, RErr e) ->
+    w1 = w /\ (e <> ErrInvalid -> e1 = []) /\ Forall calm_ev e1 /\
+    forall w2, lookup (key_of ow p) (w_store w2) = lookup (key_of ow p) (w_store w) ->
+               reconcile_object c idw w2 ow prev p = (w2, e1, RErr e).
+  Proof.
+    unfold reconcile_object. fold s. fold (key_of ow p).
+    assert (Hdirect : forall x, (w, @nil ev, RErr x) = (w1, e1, RErr e) ->
+              w1 = w /\ (e <> ErrInvalid -> e1 = []) /\ Forall calm_ev e1 /\
+              forall w2 : world, (w2, @nil ev, RErr x) = (w2, e1, RErr e)).
+    { intros x H. injection H as <- <- <-. repeat split; auto. }
+    assert (Hda : forall rd ap, do_apply idw w (key_of ow p) rd ap = (w1, e1, RErr e) ->
+              w1 = w /\ (e <> ErrInvalid -> e1 = []) /\ Forall calm_ev e1 /\
+              forall w2, lookup (key_of ow p) (w_store w2) = lookup (key_of ow p) (w_store w) ->
+                         do_apply idw w2 (key_of ow p) rd ap = (w2, e1, RErr e)).
+    { intros rd ap H. destruct (do_apply_err_local _ _ _ _ _ _ _ H) as (H1 & H2 & H3).
+      split; [exact H1|]. split; [intros Hne; contradiction|]. split; [|exact H3].
+      destruct (do_apply_events _ _ _ _ _ _ _ _ H) as (post & -> & Hp). destruct post as [o| |]; [destruct Hp; discriminate|contradiction|].
+      constructor; [exact I|constructor]. }
+    destruct (set_controller_l s (ow_id ow) (k_ns (key_of ow p)) []) as [dref|].
+    2:{ intros H. destruct (Hdirect _ H) as (H1 & H2 & H3 & H4). auto. }
+    destruct (ow_paused ow).
+    { destruct (cache_get w (key_of ow p)); discriminate. }
+    rewrite cur_lookup.
+    destruct (lookup (key_of ow p) (w_store w)) as [cu|] eqn:El.
+    - destruct (check_adoption s (c_force c) ow cu prev (po_cp p)) eqn:Eca.
+      + intros H. destruct (Hda _ _ H) as (H1 & H2 & H3 & H4). repeat split; auto.
+        intros w2 Hl. rewrite cur_lookup, Hl, Eca. now apply H4.
+      + discriminate.
+      + destruct (set_controller_l s (ow_id ow) (k_ns (key_of ow p)) (release_l (refs s cu))) as [l|] eqn:Esc.
+        * intros H. destruct (Hda _ _ H) as (H1 & H2 & H3 & H4). repeat split; auto.
+          intros w2 Hl. rewrite cur_lookup, Hl, Eca, Esc. now apply H4.
+        * intros H. destruct (Hdirect _ H) as (H1 & H2 & H3 & H4). repeat split; auto.
+          intros w2 Hl. rewrite cur_lookup, Hl, Eca, Esc. apply H4.
+      + intros H. destruct (Hdirect _ H) as (H1 & H2 & H3 & H4). repeat split; auto.
+        intros w2 Hl. rewrite cur_lookup, Hl, Eca. apply H4.
+      + intros H. destruct (Hdirect _ H) as (H1 & H2 & H3 & H4). repeat split; auto.
+        intros w2 Hl. rewrite cur_lookup, Hl, Eca. apply H4.
+      + intros H. destruct (Hdirect _ H) as (H1 & H2 & H3 & H4). repeat split; auto.
+        intros w2 Hl. rewrite cur_lookup, Hl, Eca. apply H4.
+    - intros H. destruct (Hda _ _ H) as (H1 & H2 & H3 & H4). repeat split; auto.
+      intros w2 Hl. rewrite cur_lookup, Hl. now apply H4.
+  Qed.
+
+  (** an unpaused owner never reports an object as missing *)
+  Lemma rec_obj_not_missing w ow prev p w1 e1 :
+    ow_paused ow = false -> reconcile_object c idw w ow prev p <> (w1, e1, RMissing).
+  Proof.
+    intros Hpa E1. unfold reconcile_object in E1. fold s in E1. fold (key_of ow p) in E1.
+    destruct (set_controller_l s (ow_id ow) (k_ns (key_of ow p)) []); [|discriminate].
+    rewrite Hpa, cur_lookup in E1. destruct (lookup (key_of ow p) (w_store w)) as [cu|].
+    - destruct (check_adoption s (c_force c) ow cu prev (po_cp p)); try discriminate;
+        try (unfold do_apply in E1; destruct (api_apply _ _ _) as [[[? ?] ?]|]; discriminate).
+      destruct (set_controller_l s (ow_id ow) (k_ns (key_of ow p)) (release_l (refs s cu))); [|discriminate].
+      unfold do_apply in E1. destruct (api_apply _ _ _) as [[[? ?] ?]|]; discriminate.
+    - unfold do_apply in E1. destruct (api_apply _ _ _) as [[[? ?] ?]|]; discriminate.
+  Qed.
+
+  (** the object an unpaused step answers with is the one stored afterwards *)
+  Lemma rec_obj_ok_stored w ow prev p w1 e1 o :
+    ow_paused ow = false -> reconcile_object c idw w ow prev p = (w1, e1, ROk o) -> lookup (key_of ow p) (w_store w1) = Some o.
+  Proof.
+    intros Hpa. unfold reconcile_object. fold s. fold (key_of ow p).
+    destruct (set_controller_l s (ow_id ow) (k_ns (key_of ow p)) []) as [dref|]; [|discriminate].
+    rewrite Hpa, cur_lookup.
+    assert (Hda : forall rd ap, do_apply idw w (key_of ow p) rd ap = (w1, e1, ROk o) -> lookup (key_of ow p) (w_store w1) = Some o).
+    { intros rd ap H. destruct (do_apply_events _ _ _ _ _ _ _ _ H) as (post & _ & Hp). destruct post as [x| |]; [|contradiction|destruct Hp; discriminate].
+      destruct Hp as [Hr Ha]. injection Hr as <-. now destruct (api_apply_spec _ _ _ _ _ _ Ha). }
+    destruct (lookup (key_of ow p) (w_store w)) as [cu|] eqn:El; [|apply Hda].
+    destruct (check_adoption _ _ _ _ _ _); try discriminate; try apply Hda.
+    - intros H. injection H as <- _ <-. exact El.
+    - destruct (set_controller_l _ _ _ (release_l _)); [apply Hda|discriminate].
+  Qed.
+
+  (** One object replayed. *)
+  Lemma rec_obj_replay w ow prev p w1 e1 r1 :
+    ow_paused ow = false ->
+    (forall cu, lookup (key_of ow p) (w_store w) = Some cu -> obj_wf s (ow_id ow) cu) ->
+    reconcile_object c idw w ow prev p = (w1, e1, r1) ->
+    forall w2, lookup (key_of ow p) (w_store w2) = lookup (key_of ow p) (w_store w1) ->
+    exists e2, reconcile_object c idw w2 ow prev p = (w2, e2, r1) /\ Forall calm_ev e2 /\
+               (r1 <> RErr ErrInvalid -> Forall noop_ev e2).
+  Proof.
+    intros Hpa Hwf H w2 Hl. destruct r1 as [o| |e].
+    - pose proof (rec_obj_makes_quiet c w ow prev p w1 e1 o Hpa Hwf H) as Hq.
+      apply (quiet_obj_local c w1 w2) in Hq; [|exact Hl].
+      destruct (rec_obj_quiet c w2 ow prev p Hpa Hq) as (e2 & o2 & E2 & Hn).
+      pose proof (rec_obj_ok_stored _ _ _ _ _ _ _ Hpa E2) as Hs2.
+      pose proof (rec_obj_ok_stored _ _ _ _ _ _ _ Hpa H) as Hs1.
+      rewrite Hl, Hs1 in Hs2. injection Hs2 as <-.
+      exists e2. split; [exact E2|]. split; [|intros _; exact Hn].
+      eapply Forall_impl; [|exact Hn]. apply noop_calm.
+    - exfalso. eapply rec_obj_not_missing; eauto.
+    - destruct (rec_obj_err_local _ _ _ _ _ _ _ H) as (-> & Hnil & Hcalm & Hloc).
+      exists e1. split; [now apply Hloc|]. split; [exact Hcalm|].
+      intros Hne. rewrite Hnil; [constructor|]. intros ->. now apply Hne.
+  Qed.
+
+  (** A list of objects replayed: same accumulators in, same result out, world untouched. *)
+  Lemma rec_objs_replay ow prev ps : forall w acc failed w' evs r,
+    ow_paused ow = false -> NoDup (map (key_of ow) ps) ->
+    (forall p cu, In p ps -> lookup (key_of ow p) (w_store w) = Some cu -> obj_wf s (ow_id ow) cu) ->
+    reconcile_objects c idw w ow prev ps acc failed = (w', evs, r) ->
+    forall w2, (forall p, In p ps -> lookup (key_of ow p) (w_store w2) = lookup (key_of ow p) (w_store w')) ->
+    exists evs2, reconcile_objects c idw w2 ow prev ps acc failed = (w2, evs2, r) /\ Forall calm_ev evs2 /\
+                 (r <> PhErr ErrInvalid -> Forall noop_ev evs2).
+  Proof.
+    induction ps as [|p ps IH]; intros w acc failed w' evs r Hpa Hnd Hwf H w2 Hl; cbn in H |- *.
+    - injection H as <- <- <-. exists []. repeat split; constructor.
+    - inversion Hnd as [|? ? Hnotin Hnd']; subst.
+      destruct (reconcile_object c idw w ow prev p) as [[w1 e1] r1] eqn:E1.
+      assert (Hwfp : forall cu, lookup (key_of ow p) (w_store w) = Some cu -> obj_wf s (ow_id ow) cu).
+      { intros cu Hcu. apply (Hwf p cu); [now left|assumption]. }
+      assert (Hframe1 : forall x, In x ps -> lookup (key_of ow x) (w_store w1) = lookup (key_of ow x) (w_store w)).
+      { intros x Hx. eapply rec_obj_frame; [exact E1|]. intros Heq. apply Hnotin. rewrite <- Heq. now apply in_map. }
+      assert (Hwf' : forall x cu, In x ps -> lookup (key_of ow x) (w_store w1) = Some cu -> obj_wf s (ow_id ow) cu).
+      { intros x cu Hx Hlx. rewrite (Hframe1 x Hx) in Hlx. apply (Hwf x cu); [now right|assumption]. }
+      assert (Hrest : forall wz ez rz acc2 failed2,
+                reconcile_objects c idw w1 ow prev ps acc2 failed2 = (wz, ez, rz) ->
+                lookup (key_of ow p) (w_store wz) = lookup (key_of ow p) (w_store w1)).
+      { intros wz ez rz acc2 failed2 H2. eapply (rec_objs_frame c ow prev (key_of ow p) ps); [exact H2|].
+        intros x Hx Heq. apply Hnotin. rewrite <- Heq. now apply in_map. }
+      destruct r1 as [o| |e].
+      + destruct (reconcile_objects c idw w1 ow prev ps _ _) as [[wz ez] rz] eqn:E2. injection H as <- <- <-.
+        assert (Hlp : lookup (key_of ow p) (w_store w2) = lookup (key_of ow p) (w_store w1)).
+        { rewrite (Hl p (or_introl eq_refl)). eapply Hrest; exact E2. }
+        destruct (rec_obj_replay w ow prev p w1 e1 (ROk o) Hpa Hwfp E1 w2 Hlp) as (e1' & -> & Hc1 & Hn1).
+        destruct (IH _ _ _ _ _ _ Hpa Hnd' Hwf' E2 w2 (fun x Hx => Hl x (or_intror Hx))) as (e2' & -> & Hc2 & Hn2).
+        exists (e1' ++ e2'). split; [reflexivity|]. split; [apply Forall_app; now split|].
+        intros Hne. apply Forall_app. split; [apply Hn1; discriminate|now apply Hn2].
+      + exfalso. eapply rec_obj_not_missing; eauto.
+      + injection H as <- <- <-.
+        destruct (rec_obj_replay w ow prev p w1 e1 (RErr e) Hpa Hwfp E1 w2 (Hl p (or_introl eq_refl))) as (e1' & -> & Hc1 & Hn1).
+        exists e1'. split; [reflexivity|]. split; [exact Hc1|]. intros Hne. apply Hn1. intros Heq. apply Hne. now injection Heq as ->.
+  Qed.
+
+  (** A phase replayed (the preflight verdict does not depend on the world). *)
+  Lemma rec_phase_replay ow prev class ps w w' evs r :
+    ow_paused ow = false -> NoDup (map (key_of ow) ps) ->
+    (forall p cu, In p ps -> lookup (key_of ow p) (w_store w) = Some cu -> obj_wf s (ow_id ow) cu) ->
+    reconcile_phase c idw w ow prev class ps = (w', evs, r) ->
+    forall w2, (forall p, In p ps -> lookup (key_of ow p) (w_store w2) = lookup (key_of ow p) (w_store w')) ->
+    exists evs2, reconcile_phase c idw w2 ow prev class ps = (w2, evs2, r) /\ Forall calm_ev evs2 /\
+                 (r <> PhErr ErrInvalid -> Forall noop_ev evs2).
+  Proof.
+    intros Hpa Hnd Hwf. unfold reconcile_phase. destruct (flat_map (preflight_obj (c_flavor c) ow class) ps).
+    - intros H w2 Hl. eapply rec_objs_replay; eauto.
+    - intros H w2 _. injection H as <- <- <-. exists []. repeat split; constructor.
+  Qed.
+End PhaseReplay.
